@@ -603,9 +603,18 @@ func writeEvidence(p propDef, b *built, tier string, seed uint64, all []workerMs
 // ---------------------------------------------------------------------------------------
 // replay and minimisation
 
+// replayTier is the tier a replay file was recorded in: the tier changes the harness's
+// knobs, so a replay has to run in the same one.
+func replayTier(path string) string {
+	if r, err := readReplay(path); err == nil && r.Tier == "thorough" {
+		return "thorough"
+	}
+	return "quick"
+}
+
 func doReplay(p propDef, b *built, path string) int {
 	abs, _ := filepath.Abs(path)
-	msgs, out, err := runWorker(p, b, runOpts{replay: abs, tier: "quick"})
+	msgs, out, err := runWorker(p, b, runOpts{replay: abs, tier: replayTier(abs)})
 	for _, m := range msgs {
 		if m.Type == "fail" {
 			if m.Machine {
@@ -643,7 +652,7 @@ func writeReplay(path string, r *replayFile) {
 
 // tryReplay runs one candidate and reports whether the same oracle fires.
 func tryReplay(p propDef, b *built, path, oracle string) (same bool, msg string) {
-	msgs, _, _ := runWorker(p, b, runOpts{replay: path, tier: "quick"})
+	msgs, _, _ := runWorker(p, b, runOpts{replay: path, tier: replayTier(path)})
 	for _, m := range msgs {
 		if m.Type == "fail" && !m.Machine && m.Oracle == oracle {
 			return true, m.Message
